@@ -224,12 +224,22 @@ class State:
         self.scenes = {}
 
 
-def op_compile(st, pid, fresh=True):
+def op_compile(st, pid, fresh=True, fault=None):
     import scenic
 
     p = st.progs[pid]
     if fresh or pid not in st.scenarios:
-        st.scenarios[pid] = scenic.scenarioFromString(p["src"], scenario=p["top"], mode2D=p["mode2D"])
+        hd = p.get("helper_dir")
+        if hd:
+            sys.path.insert(0, hd)  # the program imports a helper Scenic module from there
+        userlib.CTX.fault_plan = plan_of(fault) or {}
+        try:
+            sc = scenic.scenarioFromString(p["src"], scenario=p["top"], mode2D=p["mode2D"])
+        finally:
+            userlib.CTX.fault_plan = {}
+            if hd and hd in sys.path:
+                sys.path.remove(hd)
+        st.scenarios[pid] = sc
         for key in [k for k in st.scenes if k[0] == pid]:
             del st.scenes[key]  # scenes belong to the scenario object that sampled them
     return st.scenarios[pid]
@@ -265,8 +275,8 @@ def exec_op(st, op, envs):
     userlib.reset()
     try:
         if kind == "compile":
-            sc = op_compile(st, op[1], fresh=True)
-            out = {"ok": True, "nobj": len(sc.objects)}
+            sc = op_compile(st, op[1], fresh=True, fault=op[2] if len(op) > 2 else None)
+            out = {"ok": True, "nobj": len(sc.objects), "params": canon(dict(sc.params))}
         elif kind == "compile_bad":
             import scenic
 
@@ -308,6 +318,8 @@ def exec_op(st, op, envs):
 def chain_for(op):
     """Minimal dependency chain of an operation in a fresh process."""
     kind = op[0]
+    if kind == "compile" and len(op) > 2 and op[2]:
+        return [op]
     if kind in ("compile", "compile_bad"):
         return [op]
     if kind in ("generate", "roundtrip"):
@@ -451,16 +463,46 @@ def choose_fault(tape, hits, what):
     return [site, hit, exc]
 
 
+HELPER = """from simverif.userlib import fault
+fault('model')
+param helperParam = 7
+"""
+
+
 def run(tape):
+    """(the helper Scenic module that P1 may import lives in a scratch directory outside
+    /repo and /verif, removed when the run is over)"""
+    import shutil
+    import tempfile
+
+    hd = tempfile.mkdtemp(prefix="c14_") if tape.chance(1, 2, "helper_module?") else None
+    try:
+        if hd:
+            with open(os.path.join(hd, "c14helper.scenic"), "w") as f:
+                f.write(HELPER)
+        return _run(tape, hd)
+    finally:
+        if hd:
+            shutil.rmtree(hd, ignore_errors=True)
+
+
+def _run(tape, helper_dir):
     g1 = dyngen.Gen(tape, FEAT)
     prog1 = g1.program()
     src1 = dyn.render(prog1)
+    if helper_dir:
+        # import of a Scenic module + a fault point at top level (both run at compile time)
+        lines = src1.split("\n")
+        k = max(i for i, ln in enumerate(lines) if ln.startswith("from simverif")) + 1
+        lines[k:k] = ["import c14helper", "fault('toplevel')"]
+        src1 = "\n".join(lines)
     g2 = dyngen.Gen(tape, FEAT2)
     prog2 = g2.program()
     prog2["mode2D"] = True
     src2 = dyn.render(prog2)
     progs = {
-        "P1": {"src": src1, "top": None if prog1["flat"] else "Main", "mode2D": False, "prog": prog1},
+        "P1": {"src": src1, "top": None if prog1["flat"] else "Main", "mode2D": False, "prog": prog1,
+               "helper_dir": helper_dir},
         "P2": {"src": src2, "top": None if prog2["flat"] else "Main", "mode2D": True, "prog": prog2},
     }
     n1, n2 = dyngen.count_objects(prog1), dyngen.count_objects(prog2)
@@ -515,7 +557,10 @@ def run(tape):
         elif k == 5:
             follow.append(("compile_bad", bad_src))
         elif k == 6:
-            follow.append(("compile", "P1"))
+            cf = None
+            if helper_dir and tape.chance(2, 3, "compile.fault?"):
+                cf = [tape.choice(["toplevel", "model"], "compile.site"), 1, tape.choice(EXC, "compile.exc")]
+            follow.append(("compile", "P1", cf))
         elif k == 7:
             follow.append(("roundtrip", "P1", seed_a, 0))
         else:
